@@ -605,8 +605,8 @@ func TestC15(t *testing.T) {
 		})
 	}
 	// masked operands in the elementwise operation matrix
-	for _, op := range []string{"Add", "Sub", "Mul", "Div", "Lt", "ElEq", "Neg", "Square"} {
-		for _, d := range []DT{dtInt32, dtF64, dtUint8, dtF32} {
+	for _, op := range []string{"Add", "Sub", "Mul", "Div", "Mod", "Lt", "ElEq", "Neg", "Square"} {
+		for _, d := range []DT{dtInt32, dtF64, dtUint8, dtF32, dtInt8, dtUint16, dtInt64} {
 			op, d := op, d
 			cell(t, "C15", "EW", "masked-op/"+op+"/"+d.Name, nCases(30, 600), func(rt *rapid.T) Case {
 				var c *EWCase
@@ -629,12 +629,12 @@ func TestC15(t *testing.T) {
 					for i := range c.B.Mask {
 						c.B.Mask[i] = rapid.IntRange(0, 2).Draw(rt, "mb") == 0
 						// zero divisors are mostly hidden under the mask: they are not operated on, so no error is due
-						if op == "Div" && d.IsInt() && eqVal(decode(d, c.B.Codes[i]), conv(d, 0)) && rapid.IntRange(0, 3).Draw(rt, "hide") > 0 {
+						if (op == "Div" || op == "Mod") && d.IsInt() && eqVal(decode(d, c.B.Codes[i]), conv(d, 0)) && rapid.IntRange(0, 3).Draw(rt, "hide") > 0 {
 							c.B.Mask[i] = true
 						}
 					}
 				}
-				if op == "Add" || op == "Sub" || op == "Mul" || op == "Div" {
+				if op == "Add" || op == "Sub" || op == "Mul" || op == "Div" || op == "Mod" {
 					// the destination modes too (compact destinations)
 					if m := rapid.SampledFrom([]string{"safe", "safe", "reuse", "incr"}).Draw(rt, "mmode"); m != "safe" {
 						c = withMode(rt, c, m, d)
@@ -642,8 +642,55 @@ func TestC15(t *testing.T) {
 						c.Pre = ""
 					}
 				}
+				if inF62(c) {
+					rec.Class("excluded:F62")
+					avoidF62(c)
+				}
 				return c
 			})
 		}
+	}
+}
+
+// inF62 is the region of known finding F62: integer Mod with WithReuse where a zero divisor sits at a
+// position that is masked in an operand (the reuse tensor carries no mask, so the position is operated on
+// and Go's operator panics).
+func inF62(c *EWCase) bool {
+	d := dtByName(c.DT)
+	if c.Op != "Mod" || !d.IsInt() || c.Mode != "reuse" {
+		return false
+	}
+	for k := range c.A.Codes {
+		masked := (c.A.Mask != nil && c.A.Mask[k]) || (c.B != nil && c.B.Mask != nil && c.B.Mask[k])
+		if !masked {
+			continue
+		}
+		switch c.Form {
+		case "TT":
+			if eqVal(decode(d, c.B.Codes[k]), conv(d, 0)) {
+				return true
+			}
+		case "ST":
+			if eqVal(decode(d, c.A.Codes[k]), conv(d, 0)) {
+				return true
+			}
+		}
+	}
+	return false
+}
+
+func avoidF62(c *EWCase) {
+	d := dtByName(c.DT)
+	fix := func(codes []int64) {
+		for k := range codes {
+			if eqVal(decode(d, codes[k]), conv(d, 0)) {
+				codes[k] = 1
+			}
+		}
+	}
+	if c.Form == "TT" {
+		fix(c.B.Codes)
+	} else {
+		fix(c.A.Codes)
 	}
 }
